@@ -75,7 +75,9 @@ def run : Handler := fun req => do
     let kind := sOf it "kind"
     let nm := sOf it "name"
     let isHeaderConst := kind == "const" && sOf it "ty" == "http::HeaderName"
-    (if ["struct", "enum", "type", "const", "static", "fn", "trait"].contains kind && sOf it "vis" != wantVis then [(if isHeaderConst then "HEADERCONST:" else "") ++ s!"{kind} {nm}: `{sOf it "vis"}`"] else []) ++
+    -- F18-3: the `static REGEX_…: LazyLock<regex::Regex>` behind `#[validate(regex(path = …))]` is emitted without any visibility
+    let isRegexStatic := kind == "static" && ((sOf it "ty").splitOn "regex::Regex").length > 1 && sOf it "vis" == ""
+    (if ["struct", "enum", "type", "const", "static", "fn", "trait"].contains kind && sOf it "vis" != wantVis then [(if isHeaderConst then "HEADERCONST:" else if isRegexStatic then "REGEXSTATIC:" else "") ++ s!"{kind} {nm}: `{sOf it "vis"}`"] else []) ++
     (if kind == "struct" then (lOf it "fields").filterMap fun f => if sOf f "vis" != wantVis then some s!"field {nm}.{sOf f "name"}: `{sOf f "vis"}`" else none else []) ++
     (if kind == "impl" && (fieldD it "trait" Json.null) == Json.null then
       ((lOf it "methods").filterMap fun m => if sOf m "vis" != wantVis then some s!"method {nm}::{sOf m "name"}: `{sOf m "vis"}`" else none) ++
@@ -111,6 +113,7 @@ def run : Handler := fun req => do
   let mDiff := (mV.filter (!mB.contains ·)) ++ (mB.filter (!mV.contains ·))
   let mBad := if mDiff.isEmpty then [] else if helpersDiffer || buildersDiffer then [] else mDiff
   let headerOnly := !visBad.isEmpty && visBad.all (·.startsWith "HEADERCONST:")
+  let regexOnly := !visBad.isEmpty && visBad.all (·.startsWith "REGEXSTATIC:")
   let judge :=
     if (fieldD var "parse_error" Json.null) != Json.null then verdict false [] "variant output does not parse"
     else if !skDiff.isEmpty then
@@ -124,7 +127,7 @@ def run : Handler := fun req => do
     else if !constDiff.isEmpty then verdict false [] s!"constants change between the settings: {constDiff.take 3}"
     else if !added.isEmpty || !removed.isEmpty then verdict false [] s!"items added {added.take 3} / removed {removed.take 3} beyond the documented ones"
     else if !mBad.isEmpty then verdict false [] s!"inherent methods differ although helper/builder flags are equal: {mBad.take 4}"
-    else if !visBad.isEmpty then verdict false (if headerOnly then ["KnownHeaderConstPub"] else []) s!"items not carrying the requested visibility `{wantVis}`: {visBad.take 4}"
+    else if !visBad.isEmpty then verdict false (if headerOnly then ["KnownHeaderConstPub"] else if regexOnly then ["KnownRegexStaticPrivate"] else []) s!"items not carrying the requested visibility `{wantVis}`: {visBad.take 4}"
     else verdict true []
   let branch := s!"{sOf cfg "vis"}" ++ (if flag cfg "no_helpers" then "+nh" else "") ++ (if flag cfg "builders" then "+b" else "") ++ (if flag cfg "all_headers" then "+ah" else "") ++ "/" ++ sOf inp "mode"
   pure (Json.mkObj [("model", Json.null), ("match", true), ("judge", judge), ("branch", branch)])
